@@ -99,6 +99,9 @@ def step (s : DSt) (line : String) : DSt × Option String :=
       (setInst s i' offs, some s!"replaypub n={n} last={r}")
   | ["drop", n] =>
     (if nat! n == s.cur then s else { s with insts := s.insts.filter (fun p => p.1 != nat! n), buses := s.buses.filter (· != nat! n) }, some "drop")
+  | ["pubhookpanic", _] =>
+    -- a before-publish hook panics: the publish is aborted before anything is recorded or delivered
+    ({ s with buses := s.cur :: s.buses }, some "pubhookpanic aborted")
   | ["pubflaky", r] =>
     -- durable-streams only: the server stores the event, the acknowledgement is lost: one record, one failure report
     let s := { s with buses := s.cur :: s.buses }
